@@ -29,6 +29,16 @@ def run_conn(c, extra_args=()):
         t = c.rundir / "conn.ndjson"
         c.drive(drv, ["conn", "random", c.seed * 7919 + 11, c.pick(150 if pid in ("C05", "C06") else 250, 3000), t, "steps=%d" % c.pick(25, 30)] + list(extra_args))
         traces.append(t)
+        # (G) TLC-generated behaviours of the SwarmConn model (simulation, seeded) replayed into the real Swarm
+        gen, n, _ = c.tlc_gen("GenSwarmConn", "GenSwarmConn.cfg", num=c.pick(150, 3000), depth=24, timeout=c.pick(300, 1500))
+        sched = c.rundir / "tlc_sched.ndjson"
+        with open(sched, "w") as f:
+            for line in open(gen):
+                f.write(json.dumps({"cfg": {"concurrency": 2, "source": "tlc"}, "cmds": json.loads(line)}) + "\n")
+        t4 = c.rundir / "tlc_conn.ndjson"
+        c.drive(drv, ["conn", "replay", sched, t4])
+        traces.append(t4)
+        c.extra_cov["tlc_generated_schedules"] = n
         if pid in ("C01", "C02", "C06"):
             # real pairs: 2-3 real Swarms over memory transport + plaintext + yamux, hand-polled in schedule order;
             # each Swarm's events form one run of the same trace spec
